@@ -68,10 +68,14 @@ func ZzvC16Proxy() {
 		beforeNode, beforeNs := lim.NodeEvicted(node), lim.NamespaceEvicted(ns)
 		ok := e.Evict(context.TODO(), pod, framework.EvictOptions{})
 		if ok {
+			zzverif.Reach("eviction-accepted")
 			accepted++
 			accNode[node]++
 			accNs[ns]++
 		} else {
+			if plugin.calls == beforeCalls && !dry {
+				zzverif.Reach("eviction-refused-by-a-cap")
+			}
 			zzverif.Assert(lim.TotalEvicted() == beforeTotal && lim.NodeEvicted(node) == beforeNode && lim.NamespaceEvicted(ns) == beforeNs, "a refused eviction leaves the counters unchanged")
 			if dry {
 				zzverif.Assert(plugin.calls == beforeCalls, "a refused dry-run eviction issues no call")
